@@ -52,6 +52,16 @@ MISSED = [
  ("C13-g (later CSV chunks cast to the first chunk's inferred dtypes)", "floats always written with a decimal point", "half of the delimited files written with `%.17g` (2 instead of 2.0)"),
  ("C15-g (fast path when no protein group repeats)", "every table had several peptides per group", "sparse tables: one peptide per occurring group"),
  ("C20-g (scan numbers stored as int32)", "scan numbers were small", "documents with scans in the upper half of the unsigned 32-bit range"),
+ ("C02-h (a spectrum larger than the last fold is split instead of refused)", "no skewed tables, `_split` only reached through brew", "`split` class: `_split` driven directly on small / skewed tables; a returned split must be spectrum-closed"),
+ ("C03-h (rollup drops input collections whose name begins with the file-root text)", "collection names never began like the file root", "collections `rollup_0`, `run0` + `--file_root run`, `set0` + `--file_root se`"),
+ ("C04-h (builtin `hash()` for the fold split; leaks when saved models re-score in another session)", "C04 never re-used saved models (C08 caught the change at once)", "`reuse` class: models pickled in one interpreter session re-score the collection in another (other hash seed, string-valued key member)"),
+ ("C05-h (missing-value flags overwritten per row chunk)", "C05 tables had no features with missing values", "every fourth C05 table has three features with a few missing values (early / late / anywhere)"),
+ ("C07-h (best feature of the *last* fold instead of the best fold)", "one dominant feature: all folds agreed", "a third of the C07 tables carry a twin feature of equal quality with the opposite direction"),
+ ("C09-h (`finally: move(tsv, pin)` after a failed conversion)", "no failure injected inside the CLI's PIN conversion", "the k-th write to `<pin>.tsv` fails (opener shadowed inside `mokapot.mokapot`): input must stay original or completely converted, rerun must match the clean run"),
+ ("C11-h (refusal flag reset per fold: only the last fold can refuse)", "*reached* but reported as inconclusive: a duplicated keyword in the monitor's own `violate()` call raised `TypeError`", "harness bug fixed (keyword renamed)"),
+ ("C13-h (tail rows stay in the buffer after the forced flush)", "one session per writer object", "second initialise / append / finalise session on the same writer"),
+ ("C15-h (`group_without_decoys` writes into the `Proteins` object's map)", "no target-only FASTA in C15, one call per object", "`target_only_reuse` class (its first run on the unchanged tree exposed **D24**)"),
+ ("C20-h (a non-PepXML file among valid ones is skipped silently)", "foreign files only on their own", "foreign / text files before, after and between valid PepXML files"),
  ("C12-d (new scoring block size, last row unscored when n % size == 1)", "the constant did not exist when the monitors were written; tables are far smaller than its default", "tunables are discovered in `mokapot.constants` at run time; C05 adds a variant per discovered constant, C12 a metamorphic refit under small values of it"),
 ]
 seed_rows = ["| seeded change | needs | result |", "|---|---|---|"]
